@@ -160,7 +160,11 @@ def compose(rw, fams, tier, want=None):
         if want.get("unheld_token") or rw.random() < 0.25:
             ctx["unheld_token"] = rw.choice([t for t in toks if t not in ("WETH", "USDC")] or list(toks))
     if "gmx2" in fams:
-        lt, st = rw.choice([("WETH", "USDC"), ("WETH", "USDC"), ("WBTC", "USDC")])
+        lt, st = rw.choice([("WETH", "USDC"), ("WETH", "USDC"), ("WBTC", "USDC"), ("WETH", "WETH"), ("WBTC", "WBTC")])
+        if want.get("single_token_pool"):
+            lt = st = rw.choice(["WETH", "WBTC"])  # single-token GM pools (long token == short token)
+        if lt == st:
+            ctx["single_token_pool"] = True
         declare(lt, G.GLP_CATALOGUE[lt]), declare(st, G.GLP_CATALOGUE[st])
         mw = G.gen_gmx2_market(rw, "gm0", n, {t: [_sig(x) for x in path(t)] for t in (lt, st)}, long=lt, short=st, config=G.gen_gmx2_config(rw))
         markets.append(mw)
@@ -379,6 +383,8 @@ def _applicable(e, ctx, closed, nb):
     if e.needs.get("unheld_token") and not ctx.get("unheld_token"):
         return False
     if e.needs.get("shock") and nb < 2:
+        return False
+    if e.needs.get("single_token_pool") and not ctx.get("single_token_pool"):
         return False
     if e.needs.get("risk") and e.needs["risk"] not in ctx.get("risk_kinds", ()):
         return False
